@@ -177,7 +177,7 @@ def classify(ast, res, crash, asis_ok):
             return CRASH_FINDING[crash][0]
         if 'abs' in ops and exc == 'TypeError':
             return F_ABS
-        if 'not' in ops and exc in ('TypeError', 'AttributeError'):
+        if 'not' in ops and exc in ('TypeError', 'AttributeError', 'ArgumentError'):
             return F_NOT
         return None
     if res.startswith('exec:'):
@@ -283,6 +283,8 @@ def parser_level(chk):
         finding = classify(o['ast'], out['res'], crash, (oi, ri, ci) in asis_ok)
         what = (f'{out["res"]} on {"/".join(engines)}' if out['res'] != 'ok' else f'wrong rows on {"/".join(engines)}') + \
             f' for {describe(o["ast"])}'
+        if finding is None or finding not in chk.known:
+            drift[f'unlisted_failure:{out["res"]}:{"+".join(engines)}'] += 1
         chk.fail(what, {'level': 'parser', 'ast': o['ast'], 'db': dbs[run['db'] - 1]['data'], 'engines': engines,
                         'outcome': out, 'error': {e: run['err'].get(e) for e in engines}, 'model_crash': crash},
                  finding=finding)
